@@ -75,7 +75,7 @@ PLANS['C11'] = {
     'level_note': TREE_NOTE,
 }
 PLANS['C19'] = {
-    'quick': [tree('SORT4m', 4, 5, 2, '{1}', 'K', 'SortMin'), tree('SORT3', 3, 2, 2, '{1}', 'K', 'Sort')],
+    'quick': [tree('SORT4m', 4, 5, 2, '{1}', 'K', 'SortMin'), tree('SORT3', 3, 2, 2, '{1}', 'K', 'Sort'), tree('SORTR3', 3, 2, 1, '{1}', 'K', 'SortR')],
     'thorough': [tree('SORT4m', 4, 5, 2, '{1}', 'K', 'SortMin'), tree('SORT4', 4, 3, 2, '{1}', 'K', 'Sort'), tree('SORT5', 5, 5, 2, '{1}', 'K', 'SortMin', timeout=3000)],
     'rule': TREE_RULE, 'assumptions': TREE_ASSUME,
     'technique': 'pointer-level transcription of sort_list/sort_object in Tree.tla checked by TLC against "sorted permutation of the same nodes, idempotent, well-formed"; sort is an action of the heap machine so every later edit history is explored; all transitions replayed with full heap comparison (order among equal keys left open)',
